@@ -129,7 +129,7 @@ def random_case(rng, tier):
         if rng.random() < 0.4:
             scenario.append(['continue', base, tag, False])
         ops.extend(scenario)
-    return {'programs': progs, 'persister': persister, 'loader': rng.choice(['default', 'default', 'custom']),
+    return {'programs': progs, 'persister': persister, 'loader': rng.choice(['default', 'default', 'custom', 'global']),
             'via': rng.choice(['loopcomm', 'loopcomm', 'direct']), 'ops': ops, 'load_context': rng.random() < 0.5,
             'sender': rng.choice(['body', 'async', 'thread']),
             'eager': rng.random() < 0.4,
@@ -201,6 +201,10 @@ class Harness:
                                                                  record_calls=False))
             if self.case['loader'] == 'custom':
                 self.loader = persist.make_custom_loader(plumpy)
+            elif self.case['loader'] == 'global':
+                # the application configured its loader once, globally (plumpy.set_object_loader), and passes it nowhere: task
+                # bodies, launcher and persister all fall back to it
+                plumpy.set_object_loader(persist.make_custom_loader(plumpy, strict=True))
             if self.case['persister'] == 'memory':
                 # with a custom loader the in-memory checkpoints name their classes by that loader's identifiers, which
                 # the default loader cannot resolve: continuing them needs the configured loader
@@ -284,6 +288,8 @@ def run(case):
         result.counters[f'via:{case["via"]}'] += 1
         if case['loader'] == 'custom':
             result.counters['loader:custom'] += 1
+        if case['loader'] == 'global':
+            result.counters['loader:global'] += 1
         pids = {}  # op index -> (pid, program index)
         checkpoints = {}  # (pid, tag) -> (program index, number of steps executed at the checkpoint, state)
         nontrivial = False
